@@ -141,6 +141,19 @@ def run(repo, rep, tier):
     L.borrow(repo, rep, "R19.2", "C01", _c01.statement_patterns,
              ("statement-space", "statement-expression-width",
               "split-parts-steps"), minimum=3)
+    # every token the tokenizers make carries the file name they were given
+    # (a deferred error is pickled with its token: the name is not added
+    # later as for compile-time errors)
+    for tq in ("chameleon.tokenize.iter_xml", "chameleon.tokenize.iter_text"):
+        tf = repo.func(tq)
+        prm = [x.arg for x in tf.node.args.args]
+        toks = [c for c in ast.walk(tf.node) if isinstance(c, ast.Call)
+                and src(c.func) == "Token"]
+        okf = bool(toks) and "filename" in prm and all(
+            any(src(a_) == "filename" for a_ in list(c.args) +
+                [k.value for k in c.keywords]) for c in toks)
+        rep.check(okf, "R19.3", tq, "tokens are stamped with the file name",
+                  construct="token-filename-forwarded", where=L.where(tf))
     L.state_rule(repo, rep)
 
 
